@@ -104,7 +104,17 @@ class RspHandler:
         if crc != crc2:
             raise ValueError(f"Checksum {crc} != {crc2}")
         pkt = pkt[1:-3]
-        return pkt
+        # Undo the escaping: '}' is followed by the original character xor 0x20
+        data = []
+        chars = iter(pkt)
+        for char in chars:
+            if char == "}":
+                try:
+                    char = chr(ord(next(chars)) ^ 0x20)
+                except StopIteration:
+                    raise ValueError(f"escape character at end of {pkt}")
+            data.append(char)
+        return "".join(data)
 
 
 def decoder():
